@@ -107,8 +107,7 @@ def check(case, ctx):
     if case.get("repeat"):
         from rv.props._util import repeat_call
 
-        if not repeat_call(ctx, "miter", "miter", cg.tx.miter, (c0, c1, sarg, earg), {}, (ok, m)):
-            return
+        ok, m = repeat_call(ctx, "miter", "miter", cg.tx.miter, (c0, c1, sarg, earg), {}, (ok, m))
     if not ok:
         if isinstance(m, ValueError):
             ctx.reject("miter_name_clash" if "already" in str(m) or "overlap" in str(m) else "miter_valueerror")
